@@ -160,6 +160,7 @@ func mainSched() {
 	E = newEnv()
 	fp0 = E.fingerprint()
 	mc.Register("sched", func(d mc.D) string { return runSchedule(d.L("ops"), d.IL("switches")) })
+	mc.Register("gc", func(d mc.D) string { return gcCase(d.S("op"), d.I("point")) })
 	mc.MaybeReplay()
 	var shard, nshard int
 	fmt.Sscanf(os.Getenv("VERIF_SHARD"), "%d/%d", &shard, &nshard)
@@ -184,6 +185,9 @@ func mainSched() {
 	}
 	R.Bound("light_operations", light)
 	R.Bound("heavy_operations", heavy)
+	if shard == 0 && !purego {
+		exploreGC(th)
+	}
 	if purego {
 		// the pure-Go build differs from the default one only in the table lookups: explore the tuples that use them
 		for _, p := range [][]string{{"Point.ScalarBaseMult(S1)", "Point.ScalarBaseMult(S1)"}, {"Point.ScalarMult(S1,P1)", "Point.ScalarMult(S1,P1)"},
